@@ -3,8 +3,8 @@ package c12
 import (
 	"encoding/hex"
 
-	vm "github.com/ontio/ontology/vm/neovm"
 	nutils "github.com/ontio/ontology/smartcontract/service/native/utils"
+	vm "github.com/ontio/ontology/vm/neovm"
 )
 
 // cyclicToNative: w = [1, w] (the cycle avoids element 0) handed to Ontology.Native.Invoke.
@@ -13,18 +13,22 @@ import (
 // Coq: c12_detector_sound_refuted / c14_witness).
 func cyclicToNativeCode(kind vm.OpCode) []byte {
 	a := newAsm()
-	a.int(0).op(kind)                   // w = []
-	a.op(vm.DUP).int(1).op(vm.APPEND)   // w = [1]
-	a.op(vm.DUP, vm.DUP).op(vm.APPEND)  // w = [1, w]
+	a.int(0).op(kind)                  // w = []
+	a.op(vm.DUP).int(1).op(vm.APPEND)  // w = [1]
+	a.op(vm.DUP, vm.DUP).op(vm.APPEND) // w = [1, w]
 	a.bytes([]byte("name")).bytes(nutils.OntContractAddress[:]).int(0).syscall(nativeInvokeName)
 	return a.code()
 }
 
-func witnessProbes(w *world) []Probe {
-	return []Probe{
+// panicWitnesses: known findings that end in a recoverable panic (none open at present).
+func panicWitnesses(w *world) []Probe { return nil }
+
+// fatalWitnesses: known findings that end the process (stack overflow) or never return.
+func fatalWitnesses(w *world) []Probe {
+	return append([]Probe{}, []Probe{
 		{Name: "witness:cycle-non-first-element:Native.Invoke", PreOnly: true,
 			Txs: []TxSpec{{Kind: "code", Code: hex.EncodeToString(cyclicToNativeCode(vm.NEWARRAY))}}},
 		{Name: "witness:cycle-non-first-element:Native.Invoke", BlockOnly: true,
 			Txs: []TxSpec{{Kind: "code", Code: hex.EncodeToString(cyclicToNativeCode(vm.NEWARRAY))}}},
-	}
+	}...)
 }
